@@ -12,28 +12,30 @@ from vlib.core import Divergence, Known
 TOL = 1e-9
 
 
-def _fn(kind):
+def _fn(kind, scale=1.0):
     if kind == 'lin':
-        return lambda t: 8.0 * t
+        return lambda t: 8.0 * (np.asarray(t) / scale)
     if kind == 'step':
         return lambda t: 16.0 * (np.asarray(t) >= 0)
     if kind == 'tri':
-        return lambda t: 16.0 * np.maximum(0, 4 - np.abs(2 * np.asarray(t)))
+        return lambda t: 16.0 * np.maximum(0, 4 - np.abs(2 * np.asarray(t) / scale))
     if kind == 'sstep':
         def sstep(t):
             if np.ndim(t) != 0:
                 raise TypeError('scalar only')
-            return 8.0 if 2 * t >= 2 else 0.0
+            return 8.0 if 2 * t / scale >= 2 else 0.0
         return sstep
     raise KeyError(kind)
 
 
-def ticks(seq):
-    return np.array([x / 2.0 for x in seq], dtype=float)
+def ticks(seq, scale=1.0):
+    return np.array([x / 2.0 * scale for x in seq], dtype=float)
 
 
 class SignalsDriver:
-    def __init__(self):
+    def __init__(self, scale=1.0):
+        """scale: seconds per time unit (1.0, or 2**-30 ~ 0.93 ns: dyadic, so all grid arithmetic stays exact)"""
+        self.scale = scale
         self.objs = []
         self.ext = {}       # array id -> caller's ndarray
         self._tids = set()  # ids of caller arrays that hold times
@@ -56,19 +58,19 @@ class SignalsDriver:
         res = None
         try:
             if op == 'NewSignal':
-                t = ticks(last['g'])
+                t = ticks(last['g'], self.scale)
                 v = np.array(last['v'], dtype=float)
                 self.ext[last['et']] = t
                 self.ext[last['ev']] = v
                 res = Signal(t, v, value_type=last['vt'] or None)
             elif op == 'NewEmpty':
-                t = ticks(last['g'])
+                t = ticks(last['g'], self.scale)
                 self.ext[last['et']] = t
                 res = EmptySignal(t, value_type=last['vt'] or None)
             elif op == 'NewFunction':
-                t = ticks(last['g'])
+                t = ticks(last['g'], self.scale)
                 self.ext[last['et']] = t
-                res = FunctionSignal(t, _fn(last['fn']), value_type=last['vt'] or None)
+                res = FunctionSignal(t, _fn(last['fn'], self.scale), value_type=last['vt'] or None)
             elif op == 'Copy':
                 res = self.objs[last['a'] - 1].copy()
             elif op == 'Add':
@@ -96,15 +98,15 @@ class SignalsDriver:
                 if o2 is not o:
                     raise Divergence('IDiv', 'in place', 'new object')
             elif op == 'Shift':
-                self.objs[last['a'] - 1].shift(last['d'] / 2.0)
+                self.objs[last['a'] - 1].shift(last['d'] / 2.0 * self.scale)
             elif op == 'WithTimes':
-                t = ticks(last['g'])
+                t = ticks(last['g'], self.scale)
                 self.ext[last['et']] = t
                 res = self.objs[last['a'] - 1].with_times(t)
             elif op == 'MutateExt':
                 a = self.ext[last['e']]
                 # entries of time arrays are ticks in the spec
-                a[last['n'] - 1] = last['x'] / 2.0 if self._is_time(last['e'], st) else float(last['x'])
+                a[last['n'] - 1] = last['x'] / 2.0 * self.scale if self._is_time(last['e'], st) else float(last['x'])
             elif op == 'PokeValues':
                 self.objs[last['a'] - 1].values[last['n'] - 1] = float(last['x'])
             else:
@@ -135,8 +137,8 @@ class SignalsDriver:
             raise Divergence('objects', len(objs), len(self.objs))
         tracked = []
         for i, (so, ro) in enumerate(zip(objs, self.objs)):
-            et = [x / 2.0 for x in arr[so['ta'] - 1]]
-            if len(ro.times) != len(et) or not np.allclose(ro.times, et, rtol=0, atol=TOL):
+            et = [x / 2.0 * self.scale for x in arr[so['ta'] - 1]]
+            if len(ro.times) != len(et) or not np.allclose(ro.times, et, rtol=0, atol=TOL * self.scale):
                 raise Divergence('objs[%d].times' % (i + 1), et, list(map(float, ro.times)))
             ev = spec_values(so, arr)
             try:
@@ -153,7 +155,7 @@ class SignalsDriver:
             tracked.append(('objs[%d].values' % (i + 1), ro.values))
         for aid, a in self.ext.items():
             exp = arr[aid - 1]
-            sc = 2.0 if aid in self._tids else 1.0
+            sc = 2.0 / self.scale if aid in self._tids else 1.0
             if len(a) != len(exp) or not np.allclose(a * sc, exp, rtol=0, atol=TOL):
                 raise Divergence('caller array %d' % aid, list(exp), list(map(float, a * sc)))
             tracked.append(('caller array %d' % aid, a))
